@@ -242,7 +242,7 @@ fn project_sheet(ws: &Worksheet, st: &mut Styles) -> Value {
     for rn in rnums {
         if let Some(r) = ws.get_row_dimension(&rn) {
             rows.push(json!({"r": cl(rn), "ht": show(*r.get_height()), "hid": *r.get_hidden(), "custom": *r.get_custom_height(),
-                             "thick": *r.get_thick_bot(), "s": st.digest(r.get_style())}));
+                             "thick": *r.get_thick_bot(), "desc": show(*r.get_descent()), "s": st.digest(r.get_style())}));
         }
     }
     let mut cnums: Vec<u32> = ws.get_column_dimensions().iter().map(|c| *c.get_col_num()).collect();
